@@ -32,7 +32,12 @@ class DictAdapter(Adapter):
 
     @classmethod
     def items(cls, value, node):
-        if node is None or not isinstance(node, ast.Dict):
+        if (
+            node is None
+            or not isinstance(node, ast.Dict)
+            or any(key is None for key in node.keys)
+        ):
+            # the values can not be mapped to the nodes (star-expressions)
             return [Item(value=value, node=None) for value in value.values()]
 
         result = []
